@@ -29,6 +29,13 @@ def plain(name, pkg, run, race=False, **kw):
 
 PROPS = {}
 
+
+def crash(name, pkg, family, quick, thorough):
+    import crashenum
+    return {"name": name, "pkg": pkg, "kind": "python", "func": crashenum.run_crashenum, "family": family,
+            "scenarios": {"quick": quick, "thorough": thorough}}
+
+
 PROPS["C01"] = {
     "technique": "model-based property testing (rapid): reference model out(e)=e-|withheld before e| against packetmap and the real forwarding path",
     "level_text": "generated arrival histories (wrap, loss, duplicates, reordering, drop patterns, long runs) checked against a reference model written from the statement; finds counterexamples, never proves absence",
@@ -188,9 +195,21 @@ PROPS["C18"] = {
         rapid("etag-headers", "webserver", "TestVerif_C18_EtagHeaders", 10000, 80000),
         rapid("conditional-sequences", "webserver", "TestVerif_C18_ConditionalSequences", 300, 2500),
         rapid("racing-writers", "webserver", "TestVerif_C18_RacingWriters", 60, 500),
+        crash("crash-points", "group", "group", 6, 60),
     ],
     "technique": "property-based testing (rapid): header grammar vs reference, API sequences with a string-based tag oracle, racing writers + concurrent readers, crash-point enumeration with strace fault injection",
     "assumptions": ["process crashes at syscall boundaries only (no power-loss model)", "successive versions differ in size (bodies of distinct sizes); equal-size-equal-mtime versions are counted, not judged"],
+}
+
+PROPS["C16"] = {
+    "units": [
+        rapid("store-model", "token", "TestVerif_C16_StoreModel", 800, 6000),
+        rapid("racing-editors", "token", "TestVerif_C16_RacingEditors", 100, 800),
+        crash("crash-points", "token", "token", 4, 50),
+    ],
+    "technique": "model-based stateful property testing (rapid) with a fresh-reader differential, racing conditional editors, crash-point enumeration with strace fault injection",
+    "assumptions": ["process crashes at syscall boundaries only; the token writer does not fsync, durability across power loss is not claimed",
+                    "equal-size-equal-mtime versions are indistinguishable to the store; they are counted, not judged"],
 }
 
 NOT_APPLICABLE = {}
